@@ -276,7 +276,7 @@ Proof.
   rewrite Hpc. replace (size >? max_alloc) with false by (unfold size; lia).
   assert (Hlc : loop_count (n0, n1, n2) = N).
   { unfold loop_count. replace ((0 <? n0) && (0 <? n1) && (0 <? n2)) with true by lia. reflexivity. }
-  rewrite Hlc.
+  rewrite Hlc. replace (N >? Z.of_nat (length data)) with false by lia.
   set (ws := combine (zseq 0 N) data).
   assert (Hlen2 : length (zseq 0 N) = length data) by (unfold zseq; rewrite zseq_nat_length; lia).
   assert (Hkeys : forall kv, In kv ws -> 0 <= fst kv < N).
@@ -345,7 +345,7 @@ Theorem setup_permutation : forall h g dflt smode pos s0 s1 s2 n0 n1 n2 nu nv nw
 Proof.
   intros h g dflt smode pos s0 s1 s2 n0 n1 n2 nu nv nw Hao Hchk Hpos Hst Hn H0 H1 H2 I0 I1 I2 Hnn Hu Hv Hw Hal Hwin Hlen.
   pose proof (axis_positions_perm _ _ Hpos) as Hperm.
-  unfold setup_core. replace (g_ao g =? 1) with false by lia. rewrite Hchk. cbn [negb].
+  unfold setup_core, setup_core_gen. replace (g_ao g =? 1) with false by lia. rewrite Hchk. cbn [negb].
   rewrite Hpos. cbn [bind]. rewrite Hst, Hn. cbn [add_v3]. rewrite I0, I1, I2. cbn [andb negb].
   rewrite Hnn.
   set (st := if smode =? 2 then (0, 0, 0) else (s0, s1, s2)).
